@@ -523,6 +523,14 @@ static string run_backend(const string &payload, bool force_select, bool *early)
           }
           break;
         }
+        case 'I': {     // one iteration whose select() / epoll_wait() is interrupted by a signal (EINTR)
+          c16p::p_vsleep = &vsleep;
+          c16p::p_intr_next = true;
+          server.RunOnce();
+          c16p::p_intr_next = false;
+          c16p::p_vsleep = NULL;
+          break;
+        }
         case 'x': case 'y': {
           c16p::p_vsleep = &vsleep;
           if (o[0] == 'x') server.RunOnce();
